@@ -2,7 +2,7 @@
 //! and a small uniform "probe" interface over both chip models for the monitors.
 
 use crate::bus::*;
-use crate::chip126x::Chip126x;
+use crate::chip126x::{self, Chip126x};
 use crate::chip127x::{self, Chip127x};
 use crate::exec;
 use lora_phy::mod_params::{RadioError, RadioMode, RxMode};
@@ -71,6 +71,8 @@ pub trait Probe: ChipModel {
     fn set_pkt_status(&mut self, b: [u8; 3]);
     fn alarms(&self) -> &Vec<Alarm>;
     fn op_starts(&self) -> &Vec<OpStart>;
+    /// LoRa sync word registers now (SX126x: MSB<<8 | LSB; SX127x: RegSyncWord)
+    fn sync_value(&self) -> u16;
     fn prog(&self) -> u16;
     fn losses(&self) -> u32;
     fn last_loss(&self) -> &'static str;
@@ -112,6 +114,9 @@ impl Probe for Chip126x {
     }
     fn op_starts(&self) -> &Vec<OpStart> {
         &self.op_starts
+    }
+    fn sync_value(&self) -> u16 {
+        (self.reg(chip126x::REG_LORA_SYNC_WORD_MSB) as u16) << 8 | self.reg(chip126x::REG_LORA_SYNC_WORD_LSB) as u16
     }
     fn prog(&self) -> u16 {
         self.prog
@@ -165,6 +170,9 @@ impl Probe for Chip127x {
     }
     fn op_starts(&self) -> &Vec<OpStart> {
         &self.op_starts
+    }
+    fn sync_value(&self) -> u16 {
+        self.regs[chip127x::REG_SYNC_WORD as usize] as u16
     }
     fn prog(&self) -> u16 {
         Chip127x::prog(self)
